@@ -80,6 +80,19 @@ theorem decode_csi_mod_2_32 (u : Uni) (p n : Int) (sub : List Int) (rest : List 
 example : decodeKey asciiUni (.csi [[4294967393]] 117) = decodeKey asciiUni (.csi [[97]] 117) :=
   decode_csi_mod_2_32 asciiUni 97 1 [] [] 117
 
+/-- General congruence: `decodeKey` reads `CSI params final` only through `csiNormal params` — the
+    first three parameters, with every key-code field (number, shifted, base) and every text code
+    point reduced modulo 2^32; the modifier and event fields are read as integers.  Two parameter
+    lists with the same normal form denote the same key. -/
+theorem decode_csi_congruence (u : Uni) (params params' : List (List Int)) (fin : Int)
+    (h : csiNormal params = csiNormal params') :
+    decodeKey u (.csi params fin) = decodeKey u (.csi params' fin) := by
+  rw [decode_csi_total, decode_csi_total, csiDenotes, csiDenotes, csiFields_normal params, csiFields_normal params', h]
+
+example : decodeKey asciiUni (.csi [[97, 4294967361], [2], [8589934657], [7], [8, 9]] 117) =
+    decodeKey asciiUni (.csi [[97, 65], [2], [65]] 117) :=
+  decode_csi_congruence asciiUni _ _ 117 (by decide)
+
 /-- (iii) A key-code parameter in [2^31, 2^32) is a NEGATIVE key code `p − 2^32` (never a functional
     key, never Shift+Tab, never the modifyOtherKeys form), and its `String()` is "invalid". -/
 theorem decode_csi_high_half_invalid (u : Uni) (p : Int) (sub : List Int) (rest : List (List Int)) (fin : Int)
@@ -119,11 +132,6 @@ example : (decodeKey asciiUni (.csi [[97], [-5]] 117)).mods = 0 := (decode_csi_m
 `c` is the key (its un-shifted character), `C` the character Shift produces on it.  The `unicode`
 functions are an arbitrary oracle `u`; every hypothesis on it is written out (and evaluated at run
 time on Go's real tables by the `hyp` ops of the C09 harness). -/
-
-theorem validRune_inRune {c : Int} (hv : validRune c = true) : inRune c := by
-  simp only [validRune, Bool.and_eq_true, decide_eq_true_eq] at hv
-  have hmr : maxRune = 1114111 := rfl
-  exact ⟨hv.1.1, by have := hv.1.2; omega⟩
 
 /-- `sameForMatching_sound` for every `unicode` oracle: two events that agree on all fields, or differ
     only in that the first carries the (unmodified) key's own character as text and the second none —
